@@ -21,3 +21,11 @@ func context.Context.Done
   recvnonnil
   modifies nothing
   ensures result == doneChan(self)
+# a context's error: nil until the context is cancelled (ghost: the current error of each context; who cancels what is
+# stated where it matters)
+ghost ctxErrOf map[ref]error
+func context.Context.Err
+  assumed
+  recvnonnil
+  modifies nothing
+  ensures result == ctxErrOf[self]
